@@ -57,6 +57,11 @@ let handle kind a =
   | "iv" -> both (enc_info_ints (opt_list a.(0))) (fun bs -> rres show_rvalue (dec_info_ints bs))
   | "if" -> both (enc_info_float (z_of_dec a.(0))) (fun bs -> rres show_rvalue (dec_info_float bs))
   | "ifv" -> both (enc_info_floats (opt_list a.(0))) (fun bs -> rres show_rvalue (dec_info_floats bs))
+  | "im" ->
+      both enc_info_missing (fun bs -> match a.(0) with
+        | "Integer" -> rres show_rvalue (dec_info_int bs)
+        | "Float" -> rres show_rvalue (dec_info_float bs)
+        | _ -> rres (function None -> "." | Some x -> "s" ^ hex_of_bytes x) (dec_info_string bs))
   | "is" -> both (enc_info_string (bytes_of_hex a.(0)))
               (fun bs -> rres (function None -> "." | Some x -> "s" ^ hex_of_bytes x) (dec_info_string bs))
   | "fi" -> let v = scalars a.(0) in
